@@ -3,6 +3,7 @@ package main
 // Evaluation of contract expressions to SMT terms.
 
 import (
+	"sort"
 	"fmt"
 	"go/constant"
 	"go/types"
@@ -1346,6 +1347,35 @@ func (v *FnVC) cellVar(name string, st *State) (Term, bool) {
 
 // localByName finds the SSA value bound to a source-level local at the entry of block at.
 func (v *FnVC) localByName(name string, at *ssa.BasicBlock, st *State) (Term, bool) {
+	if name == "outerindex" || name == "outerindex2" {
+		// range index of the first / second range-over-slice loop that encloses the innermost one around `at`
+		type cand struct {
+			n   int
+			phi *ssa.Phi
+		}
+		var cs []cand
+		for h, l := range v.loops {
+			if !l.Blocks[at] {
+				continue
+			}
+			for _, ins := range h.Instrs {
+				if p, ok := ins.(*ssa.Phi); ok && p.Comment == "rangeindex" {
+					cs = append(cs, cand{len(l.Blocks), p})
+				}
+			}
+		}
+		sort.Slice(cs, func(i, j int) bool { return cs[i].n < cs[j].n })
+		k := 1
+		if name == "outerindex2" {
+			k = 2
+		}
+		if k < len(cs) {
+			if _, defined := v.vals[cs[k].phi]; defined {
+				return v.val(cs[k].phi), true
+			}
+		}
+		return Term{}, false
+	}
 	if t, ok := v.cellVar(name, st); ok {
 		return t, true
 	}
